@@ -133,6 +133,11 @@ def programs(chk):
         add("class programs", p)
     for _, p in gen_place.function_placements() + gen_place.class_placements():
         add("header placements", p)
+    # moderately long programs: the older runtimes have smaller parser limits (about 100 nested brackets on 3.8)
+    from harness.props import c17
+    for fam, n in (("statements", 120), ("statements", 180), ("elif", 40), ("binop", 120), ("calls", 120), ("attrs", 120),
+                   ("nested_if", 15), ("nested_for", 8), ("pattern", 20)):
+        add("size probes", c17.FAMILIES[fam](n))
     for _ in range(200 if big else 25):
         b, pl = gen_cf.random_skeleton(rng, 3)
         bits = [rng.random() < 0.6 for _ in range(60)]
